@@ -376,7 +376,7 @@ func c13r3(c *core.Ctx) {
 				// justified when the operand is the result of convert/clamp (C12-R1/R3 prove the type)
 				okSrc := core.AllSources(ta.X, func(s ssa.Value) bool {
 					if call, isC := s.(*ssa.Call); isC {
-						if g := core.Callee(call); g != nil && (g.Name() == "convert" || strings.HasPrefix(g.Name(), "clamp") || g.Name() == "getValue" || g.Name() == "GetValue") {
+						if g := core.Callee(call); g != nil && (cn(g) == "convert" || strings.HasPrefix(cn(g), "clamp") || cn(g) == "getValue" || cn(g) == "GetValue") {
 							return true
 						}
 					}
